@@ -1034,6 +1034,11 @@ func (h *histRun) checkQuiescent(final bool) {
 		for _, v := range rc.Viol {
 			if v.Prop == "C02" && (v.Sig == "strayEvent" || v.Sig == "dangling") && (h.hasNote("sub.unsend", c.CID, v.RID) || (v.Holder != "" && h.hasNote("sub.unsend", c.CID, v.Holder))) {
 				v.Sig += ".afterUnsend"
+			} else if sr := rc.LostInStray[v.RID]; v.Prop == "C02" && sr != "" && h.hasNote("sub.unsend", c.CID, sr) {
+				// consequence of an ignored stray event (finding E) that carried this resource
+				v.Sig += ".afterUnsend"
+			} else if sr := rc.LostInStray[v.Holder]; v.Prop == "C02" && v.Holder != "" && sr != "" && h.hasNote("sub.unsend", c.CID, sr) {
+				v.Sig += ".afterUnsend"
 			}
 			if v.Prop == "C02" && v.DropT > 0 && rc.TargetPendingAt(v.RID, v.DropT) {
 				v.Sig += ".droppedWhilePending"
